@@ -368,6 +368,7 @@ func c12Run(c *Ctx, files, ups []c12File) map[string]any {
 	impl["fresh0"] = c12Fresh(dir)
 	uj := []any{}
 	steps := []any{}
+	prevMembers := len(w.VerifMembers())
 	for _, u := range ups {
 		abs := filepath.Join(dir, filepath.FromSlash(u.Name))
 		uj = append(uj, map[string]any{"n": u.Name, "t": u.Text, "c": c12Contrib(dir, u.Name, u.Text)})
@@ -382,6 +383,15 @@ func c12Run(c *Ctx, files, ups []c12File) map[string]any {
 		st["postOrder"] = c12Order(dir, w)
 		st["fresh"] = c12Fresh(dir)
 		steps = append(steps, st)
+		if c.Stats != nil {
+			c.Count("step")
+			pm, _ := st["post"].(map[string]any)["members"].([]string)
+			if len(pm) != prevMembers {
+				c.Count("step.members.changed")
+			}
+			prevMembers = len(pm)
+			c.Count(fmt.Sprintf("step.members.%d", len(pm)))
+		}
 	}
 	impl["steps"] = steps
 	return map[string]any{"cfg": cfg, "limit": 50, "files": fj, "ups": uj, "impl": impl}
@@ -606,6 +616,17 @@ func genC12(c *Ctx) {
 			c.Count(fmt.Sprintf("files.%d", n))
 			gg := g
 			genCase(names, func(i, j int) bool { return j < n && gg&(1<<(i*n+j)) != 0 }, nil, 1+r.IntN(maxUps))
+		}
+	}
+	// 1b. thorough: every include graph on 4 files
+	if c.Thorough() {
+		n := 4
+		for g := 0; g < 1<<(n*n); g++ {
+			names, mode := c12Names(r, n)
+			c.Count(mode)
+			c.Count(fmt.Sprintf("files.%d", n))
+			gg := g
+			genCase(names, func(i, j int) bool { return j < n && gg&(1<<(i*n+j)) != 0 }, nil, 1+r.IntN(2))
 		}
 	}
 	// 2. random workspaces of 2..5 files, sometimes with include targets that do not exist yet
